@@ -278,6 +278,9 @@ func (ps *parser) unary() SpecExpr {
 	if ps.accept("*") {
 		return SUnary{"*", ps.unary()}
 	}
+	if ps.accept("&") {
+		return SUnary{"&", ps.unary()}
+	}
 	return ps.postfix()
 }
 
